@@ -118,8 +118,8 @@ def named(params: List[Dict[str, Any]]) -> List[str]:
 def render_sig_function(fid: str, params: List[Dict[str, Any]], kind: str, cond_defaults=()) -> str:
     """Render the function under test + its bare twin + a twin with a condition naming a foreign parameter.
 
-    ``cond_defaults``: names for which the single-parameter condition declares a default of its own (``lambda x, limit=limit``);
-    the condition must still see the value of the call.
+    ``cond_defaults``: names for which the single-parameter condition and the error factory declare a default of their own
+    (``lambda x, limit=limit``); they must still see the value of the call.
     """
     names = named(params)
     allnames = [p["name"] for p in params]
@@ -132,7 +132,11 @@ def render_sig_function(fid: str, params: List[Dict[str, Any]], kind: str, cond_
     out.append("def s_{f}({a}):\n    return HUB.capture('snap_{f}', {g})\n".format(f=fid, a=", ".join(names), g=got_text(names)))
     pfull = full + ["result", "OLD"]
     out.append("def p_{f}({a}):\n    return HUB.cond('post_{f}', {g})\n".format(f=fid, a=", ".join(pfull), g=got_text(pfull)))
-    out.append("def e_{f}({a}):\n    return HUB.error('post_{f}', {g})\n".format(f=fid, a=", ".join(pfull), g=got_text(pfull)))
+    # (the error factory is called by keyword: keyword-only parameters let any subset of them have a default of its own, which
+    # must never be used instead of the value of the call)
+    fac_defaults = set(cond_defaults) | ({"result", "_ARGS"} if cond_defaults else set())
+    out.append("def e_{f}(*, {a}):\n    return HUB.error('post_{f}', {g})\n".format(
+        f=fid, a=", ".join(n + ("=CDEFAULT" if n in fac_defaults else "") for n in pfull), g=got_text(pfull)))
     out.append("def c_foreign_{f}(nope):\n    return HUB.cond('foreign_{f}', {{'nope': nope}})\n".format(f=fid))
     decos = ["@icontract.snapshot(s_{f}, name='snap')".format(f=fid),
              "@icontract.ensure(p_{f}, error=e_{f})".format(f=fid)]
